@@ -54,6 +54,13 @@ CHECKS = {
  "C17": dict(cat="exploration", technique="exhaustive over all emitted vectors against an independent strict validator + converter acceptance",
    text="All vectors written by a real CLI run of the testdata plugin are named/hashed correctly, labelled exactly as an independent strict metamodel validator decides, every message class has a True vector and every True vector is accepted by the Python converter.",
    note="validator's lenient choices (open empty objects, result+error, null params only when undeclared) are stated in the evidence", ref="3/C17"),
+
+ "C06": dict(cat="exploration", technique="property-based testing over generated programs (Hypothesis edit sequences on the metamodel) with the other properties' oracles re-instantiated",
+   text="Metamodels are generated as schema-valid edit sequences of lsp.json and given to all four plugins; plugin termination, import of the generated module and the C01-C04/C07-C10/C17 oracles are evaluated for the evolved model. Samples an unbounded family bounded by <=6 edits and the stated type grammar.",
+   note="grammar excludes general unions, open-enum references and union aliases (they need hand-written hooks); rustfmt acceptance stands for 'parses'", ref="3/C06"),
+ "C18": dict(cat="exploration", technique="property-based testing (Hypothesis): read-back/concatenation/equality oracles over generated documents and generated schema-violating edits",
+   text="Generated schema-valid documents (evolved models, schema-directed mutations) are loaded and read back generically; merges compared with list concatenation; structural single edits must compare unequal and comparisons never raise; schema-violating single edits x 4 plugins x position must fail before any plugin runs and write nothing (spy + real CLI sample).",
+   note="schema-valid = valid against the MetaModel definition; annotation-only edits are not required to be unequal", ref="3/C18"),
 }
 
 def main():
